@@ -40,7 +40,7 @@ def _check(mi, outcome, val, built=None):
 def mutants(site: int, mut: int, rsel: int, tag: str, vsel: int,
             ksel: int) -> bool:
     """
-    pre: 0 <= site < 28 and 0 <= mut < 7 and 0 <= rsel < 80
+    pre: 0 <= site < 28 and 0 <= mut < 7 and 0 <= rsel < 90
     pre: 1 <= len(tag) <= 40 and tag != '!'
     pre: not tag.startswith('tag:yaml.org,2002:')
     pre: 0 <= vsel < 17 and 0 <= ksel < 14
@@ -53,7 +53,7 @@ def mutants(site: int, mut: int, rsel: int, tag: str, vsel: int,
 def mutants_reach(site: int, mut: int, rsel: int, tag: str, vsel: int,
                   ksel: int) -> bool:
     """
-    pre: 0 <= site < 28 and 0 <= mut < 7 and 0 <= rsel < 80
+    pre: 0 <= site < 28 and 0 <= mut < 7 and 0 <= rsel < 90
     pre: 1 <= len(tag) <= 40 and tag != '!'
     pre: not tag.startswith('tag:yaml.org,2002:')
     pre: 0 <= vsel < 17 and 0 <= ksel < 14
